@@ -72,8 +72,8 @@ func init() {
 	})
 	reg(&Property{
 		ID:          "C05",
-		Explanation: "Decides that printer and parser of each text format use the same tables (T1): one time layout constant at every Format/Parse of anchors and bounds; %q paired with strconv.Unquote and the anchor delimiter; the literal separator; node delimiters; Triple.String's separators accepted by the compiled split patterns; WriteGraph's terminator vs the reader's split function; literal type names lexer = parser = printer (X5); the reader/writer counting discipline (IO1). Also: T2 conversion table, T2b the text between the quotes reaches the conversion unchanged. Not decided: round-trip equality for all values. Round 3: FS1 formats are constants; S3c no process-wide cache in the value packages; N1/N1b node.Parse builds validated nodes; T3 floats use 64 bits; H3z pooled bytes do not escape; T1 split patterns require the separator.",
-		Rules:       []func(*Ctx){ruleN2, ruleT4, ruleN1b, ruleT3, ruleN1, func(c *Ctx) { ruleH3z(c, "triple/...", "io", "storage/...", "bql/...") }, func(c *Ctx) { ruleFS1(c, "triple/...", "io") }, func(c *Ctx) { ruleS3c(c, "triple/...", "io") }, ruleT2b, ruleT1, ruleT2, ruleIO1},
+		Explanation: "Decides that printer and parser of each text format use the same tables (T1): one time layout constant at every Format/Parse of anchors and bounds; %q paired with strconv.Unquote and the anchor delimiter; the literal separator; node delimiters; Triple.String's separators accepted by the compiled split patterns; WriteGraph's terminator vs the reader's split function; literal type names lexer = parser = printer (X5); the reader/writer counting discipline (IO1). Also: T2 conversion table, T2b the text between the quotes reaches the conversion unchanged. Not decided: round-trip equality for all values. Round 3: FS1 formats are constants; S3c no process-wide cache in the value packages; N1/N1b node.Parse builds validated nodes; T3 floats use 64 bits; H3z pooled bytes do not escape; T1 split patterns require the separator. Round 5: U1 no unsafe import in the engine.",
+		Rules:       []func(*Ctx){func(c *Ctx) { ruleU1(c, "triple/...", "io", "storage/...", "bql/...") }, ruleN2, ruleT4, ruleN1b, ruleT3, ruleN1, func(c *Ctx) { ruleH3z(c, "triple/...", "io", "storage/...", "bql/...") }, func(c *Ctx) { ruleFS1(c, "triple/...", "io") }, func(c *Ctx) { ruleS3c(c, "triple/...", "io") }, ruleT2b, ruleT1, ruleT2, ruleIO1},
 		Level:       "sibling table agreement between printers and parsers (T1), must-pass-through on the line reader (IO1)",
 		Trusted:     []string{"fmt verbs, strconv.Unquote, regexp and bufio.ScanLines behave as documented", trustedCore},
 		NotDecided:  []string{"round-trip equality for all values (ids containing delimiters, extreme numbers, zones, text containing the literal separator) — value-level", "the unescaped \"%v\" in Literal.String"},
@@ -128,8 +128,8 @@ func init() {
 	})
 	reg(&Property{
 		ID:          "C11",
-		Explanation: "Decides: P7 validator and executor compare a GROUP BY entry with the same Projection fields; A1 every accumulator's Reset re-initialises what Accumulate writes and the group reducer resets all accumulators before each group; P8 the reduce step's error is propagated; L1 the empty pattern does not index row 0 and the other unproven indexes of the grouping path are discharged. Also: A2 group boundary and distinct keys are computed from whole cells; P7b validator/executor DNF agreement; P6. Not decided: group integrity on mixed-kind columns, accumulator arithmetic, distinct counting. Round 3: A3 count increments unconditionally; A4 one result slot per aggregate.",
-		Rules: []func(*Ctx){func(c *Ctx) { ruleL3b(c, "bql/table") }, ruleA3, ruleA4, ruleA2, ruleP6, ruleP7, ruleP7b, ruleA1, func(c *Ctx) { ruleP8(c, "bql/planner") },
+		Explanation: "Decides: P7 validator and executor compare a GROUP BY entry with the same Projection fields; A1 every accumulator's Reset re-initialises what Accumulate writes and the group reducer resets all accumulators before each group; P8 the reduce step's error is propagated; L1 the empty pattern does not index row 0 and the other unproven indexes of the grouping path are discharged. Also: A2 group boundary and distinct keys are computed from whole cells; P7b validator/executor DNF agreement; P6. Not decided: group integrity on mixed-kind columns, accumulator arithmetic, distinct counting. Round 3: A3 count increments unconditionally; A4 one result slot per aggregate. Round 5: A5 one accumulator per projection; A6 no Reduce on an empty table; N3 no int64->float conversion.",
+		Rules: []func(*Ctx){ruleA5, ruleA6, func(c *Ctx) { ruleN3(c, "triple/...", "bql/table", "bql/semantic", "bql/planner") }, func(c *Ctx) { ruleL3b(c, "bql/table") }, ruleA3, ruleA4, ruleA2, ruleP6, ruleP7, ruleP7b, ruleA1, func(c *Ctx) { ruleP8(c, "bql/planner") },
 			func(c *Ctx) { ruleL1(c, 20, "./bql/table/...", "./bql/planner/...") }},
 		Level:      "sibling agreement (P7), error use (P8), bounds discharge (L1)",
 		Trusted:    []string{"L1's reviewed entries for bql/table and bql/planner", trustedCore},
@@ -137,8 +137,8 @@ func init() {
 	})
 	reg(&Property{
 		ID:          "C12",
-		Explanation: "Decides: P5 stage order pattern -> project/group -> order -> having -> limit, each once and dominating the next; P6 the limit is pushed into the driver only under empty GROUP BY, ORDER BY, HAVING and a single clause; P10 numeric/chronological order is not decided on renderings in the sort comparator; P12 the limit literal is an int64 and non-negative before it is stored and Table.Limit only ever receives it; P13 the comparator reads both rows under the first key, passes its direction and recurses on the remaining keys exactly on equality. Also: P12b ORDER BY de-duplication keeps whole original entries in order; P5c each stage works iff its clause is present. Not decided: that the sort yields a sorted permutation, DESC and multi-key handling. Round 3: P12c IsLimitSet returns the flag the LIMIT hook sets; T1 time layout.",
-		Rules:       []func(*Ctx){ruleS6c, ruleP12c, ruleT1, ruleP5, ruleP6, func(c *Ctx) { ruleP10(c, "bql/table") }, ruleP12, ruleP12b, ruleP13, ruleP5c},
+		Explanation: "Decides: P5 stage order pattern -> project/group -> order -> having -> limit, each once and dominating the next; P6 the limit is pushed into the driver only under empty GROUP BY, ORDER BY, HAVING and a single clause; P10 numeric/chronological order is not decided on renderings in the sort comparator; P12 the limit literal is an int64 and non-negative before it is stored and Table.Limit only ever receives it; P13 the comparator reads both rows under the first key, passes its direction and recurses on the remaining keys exactly on equality. Also: P12b ORDER BY de-duplication keeps whole original entries in order; P5c each stage works iff its clause is present. Not decided: that the sort yields a sorted permutation, DESC and multi-key handling. Round 3: P12c IsLimitSet returns the flag the LIMIT hook sets; T1 time layout. Round 5: P6c the limit is pushed into a lookup only if the consumer drops nothing; P13b stringLess branches on built-in comparisons of its arguments; N3 no int64->float conversion.",
+		Rules:       []func(*Ctx){ruleP6c, ruleP13b, func(c *Ctx) { ruleN3(c, "triple/...", "bql/table", "bql/semantic", "bql/planner") }, ruleS6c, ruleP12c, ruleT1, ruleP5, ruleP6, func(c *Ctx) { ruleP10(c, "bql/table") }, ruleP12, ruleP12b, ruleP13, ruleP5c},
 		Level:       "dominance of stages (P5), guard facts at the push-down sites (P6), taint from non-order-preserving renderings to string orderings (P10), guard facts on the limit store (P12)",
 		Trusted:     []string{"sort.Sort sorts", trustedCore},
 		NotDecided:  []string{"that the result is a sorted permutation (library)", "DESC and multi-key handling", "first n rows (value-level)", "row dropping inside the clause when the limit is pushed down (PID/extraction filters)"},
@@ -170,8 +170,8 @@ func init() {
 	})
 	reg(&Property{
 		ID:          "C16",
-		Explanation: "Decides: X1 every unbounded lexer loop consumes a rune per cycle and has no feasible cycle at end of input; X1b every state-graph cycle passes through lexToken, which hands over without consuming only under a rune-class fact, after which at least one rune is consumed; X2 exactly one terminal token, nothing after it, channel closed once by run; X3 cursor writers and backup-after-next typestate, hence token texts are ordered disjoint substrings and emit cannot panic; X4 keywords and literal type names are matched case-insensitively; X5 TokenType.String, grammar tokens and literal type names agree. Also: X6 no blind skip; X7 position moves by the decoder's size only; X8 the predicate/literal dispatch cannot take the opening quote for a closing one. Not decided: whitespace invariance, printed form is one token. Round 3: X9 only lexToken consults the previous token.",
-		Rules:       []func(*Ctx){func(c *Ctx) { ruleH3w(c, "triple/...", "io", "storage/...", "bql/...") }, ruleX9, ruleX7, ruleX8, ruleX1, ruleX1b, ruleX2, ruleX3, ruleX4, ruleX5, ruleX6},
+		Explanation: "Decides: X1 every unbounded lexer loop consumes a rune per cycle and has no feasible cycle at end of input; X1b every state-graph cycle passes through lexToken, which hands over without consuming only under a rune-class fact, after which at least one rune is consumed; X2 exactly one terminal token, nothing after it, channel closed once by run; X3 cursor writers and backup-after-next typestate, hence token texts are ordered disjoint substrings and emit cannot panic; X4 keywords and literal type names are matched case-insensitively; X5 TokenType.String, grammar tokens and literal type names agree. Also: X6 no blind skip; X7 position moves by the decoder's size only; X8 the predicate/literal dispatch cannot take the opening quote for a closing one. Not decided: whitespace invariance, printed form is one token. Round 3: X9 only lexToken consults the previous token. Round 5: MK1 the token channel capacity is never negative; X3 also requires the stored token text to be the input slice itself.",
+		Rules:       []func(*Ctx){ruleMK1, func(c *Ctx) { ruleH3w(c, "triple/...", "io", "storage/...", "bql/...") }, ruleX9, ruleX7, ruleX8, ruleX1, ruleX1b, ruleX2, ruleX3, ruleX4, ruleX5, ruleX6},
 		Level:       "progress/ranking argument per loop and for the state machine by abstract interpretation over rune classes (X1, X1b), typestate (X2, X3), table agreement (X4, X5)",
 		Trusted:     []string{"utf8.DecodeRuneInString returns width >= 1 on non-empty input", trustedCore},
 		NotDecided:  []string{"whitespace invariance of token kinds and texts", "the printed form of a value is emitted as exactly one token (value-level)"},
@@ -205,8 +205,8 @@ func init() {
 	})
 	reg(&Property{
 		ID:          "C20",
-		Explanation: "Decides: P8 no error of a driver call or module function is dropped on an Execute path, in the memoizer or the io package; L2 no success return that discards a received error (nil table with nil error); L6 failures neither leak goroutines nor leave a ranged-over channel open; M4 partial reads are not cached; IO1 reader errors. Also: P9d first write error kept; I1; P8b; L6c consumers drain; L6d addTriples drains on every exit. Not decided: bounded time under arbitrary fault sequences; what a driver may do after returning an error. Round 3: S13.",
-		Rules: []func(*Ctx){ruleP8c, ruleP8d, ruleS13, ruleP9d, ruleI1, func(c *Ctx) { ruleP8(c, "bql/planner", "storage/memoization", "io") }, func(c *Ctx) { ruleP8b(c, "bql/planner", "storage/memoization", "io") }, func(c *Ctx) { ruleL6c(c, "bql/planner", "io", "storage/...") }, ruleL6d,
+		Explanation: "Decides: P8 no error of a driver call or module function is dropped on an Execute path, in the memoizer or the io package; L2 no success return that discards a received error (nil table with nil error); L6 failures neither leak goroutines nor leave a ranged-over channel open; M4 partial reads are not cached; IO1 reader errors. Also: P9d first write error kept; I1; P8b; L6c consumers drain; L6d addTriples drains on every exit. Not decided: bounded time under arbitrary fault sequences; what a driver may do after returning an error. Round 3: S13. Round 5: P8f success after a fetch only past the nil test of its error; P8e an error produced in a loop is looked at inside the loop.",
+		Rules: []func(*Ctx){ruleP8f, func(c *Ctx) { ruleP8e(c, "bql/planner", "io", "storage/memoization") }, ruleP8c, ruleP8d, ruleS13, ruleP9d, ruleI1, func(c *Ctx) { ruleP8(c, "bql/planner", "storage/memoization", "io") }, func(c *Ctx) { ruleP8b(c, "bql/planner", "storage/memoization", "io") }, func(c *Ctx) { ruleL6c(c, "bql/planner", "io", "storage/...") }, ruleL6d,
 			func(c *Ctx) { ruleL2(c, 18, "bql/planner", "io") },
 			func(c *Ctx) { ruleL6(c, 25, "io", "bql/...", "storage/...") }, ruleM4M5, ruleIO1},
 		Level:      "error def-use (P8), (nil,nil) rule (L2), join typestate on error paths (L6), success-only caching (M4)",
